@@ -44,6 +44,19 @@ impl InputRedirection {
     ensures res == <InputRedirection as vstd::std_specs::convert::FromSpec<Redirection>>::from_spec(r), //[C16]
 //@end
 }
+// the NullFile conversions: bodies verified as free-standing functions (a child's input must be opened for reading, an output for writing)
+impl InputRedirection {
+//@fn exec::impl(From<NullFile>+for+InputRedirection)::from vis=pub rename=input_redirection_from_null ret=res
+//@rreplace 1 /OpenOptions::new\(\)\.(read|write)\(true(, Tracked\(w\))?\)\.open\(NULL_DEVICE\)\.unwrap\(\)/ => /open_null_device_\1()/
+    ensures res is AsRedirection && res->AsRedirection_0 is File && is_null_device(res->AsRedirection_0->File_0.obj@) && opened_for(res->AsRedirection_0->File_0.obj@).0, //[C05,C16]
+//@end
+}
+impl OutputRedirection {
+//@fn exec::impl(From<NullFile>+for+OutputRedirection)::from vis=pub rename=output_redirection_from_null ret=res
+//@rreplace 1 /OpenOptions::new\(\)\.(read|write)\(true(, Tracked\(w\))?\)\.open\(NULL_DEVICE\)\.unwrap\(\)/ => /open_null_device_\1()/
+    ensures res.0 is File && is_null_device(res.0->File_0.obj@) && opened_for(res.0->File_0.obj@).1, //[C05,C16]
+//@end
+}
 impl FromSpecImpl<File> for InputRedirection {
     open spec fn obeys_from_spec() -> bool { true }
     open spec fn from_spec(f: File) -> Self { InputRedirection::AsRedirection(Redirection::File(f)) }
